@@ -175,6 +175,9 @@ class PointerProgram:
             return self.lvalue(fn, o['args'][0], this, env, depth)
         if c == 'CallExpr' and short((fn.callee(n) or {}).get('key', '')) in ('std::move', 'std::forward'):
             return self.lvalue(fn, o['args'][0], this, env, depth)
+        if c == 'ConditionalOperator' and len(fn.kids(n)) == 3:
+            ks = fn.kids(n)       # `(c ? a : b) = v`: the arm the condition selects
+            return self.lvalue(fn, ks[1] if self.truth(self.value(fn, ks[0], this, env, depth)) else ks[2], this, env, depth)
         raise Unsupported('lvalue %s at %s' % (c, fn.nloc(n)))
 
     def consume(self, fn, n, this, env, depth, keep=None):
